@@ -72,7 +72,7 @@ Proof. intros HP Hx Hy E. assert (a = b) by nia. subst. lia. Qed.
 
 (* x * 2^s split at limb k+1 *)
 Lemma shift_split k x3 xlo s :
-  0 < s < 64 -> inW x3 -> 0 <= xlo < B ^ Z.of_nat k ->
+  0 <= s < 64 -> inW x3 -> 0 <= xlo < B ^ Z.of_nat k ->
   exists rest, (xlo + B ^ Z.of_nat k * x3) * 2 ^ s =
                B ^ Z.of_nat (S k) * (x3 / 2 ^ (64 - s)) + rest /\ 0 <= rest < B ^ Z.of_nat (S k).
 Proof.
@@ -91,4 +91,36 @@ Proof.
   - assert (0 <= l * 2 ^ s <= B - 2 ^ s) by (rewrite HBs; nia).
     assert (0 <= xlo * 2 ^ s <= (P - 1) * 2 ^ s) by nia.
     nia.
+Qed.
+
+(* top parts of a shifted number: X = xlo + B^k x3 + B^(k+1) Y, 0 <= s < 64 *)
+Lemma shifted_top k xlo x3 Y s :
+  0 <= s < 64 -> inW x3 -> 0 <= xlo < B ^ Z.of_nat k ->
+  let P := B ^ Z.of_nat (S k) in
+  let X := xlo + B ^ Z.of_nat k * x3 + P * Y in
+  let Y' := Y * 2 ^ s + x3 / 2 ^ (64 - s) in
+  Y' * P <= X * 2 ^ s < (Y' + 1) * P.
+Proof.
+  intros Hs Hx Hlo P X Y'.
+  destruct (shift_split k x3 xlo s Hs Hx Hlo) as (rest & E & Hr). fold P in E, Hr.
+  assert (EX : X * 2 ^ s = Y' * P + rest).
+  { subst X Y'. replace ((xlo + B ^ Z.of_nat k * x3 + P * Y) * 2 ^ s)
+      with ((xlo + B ^ Z.of_nat k * x3) * 2 ^ s + P * Y * 2 ^ s) by ring.
+    rewrite E. ring. }
+  lia.
+Qed.
+
+Lemma scale_bounds V D s : 0 <= s -> - (D * 2 ^ s) <= V * 2 ^ s < D * 2 ^ s -> - D <= V < D.
+Proof.
+  intros Hs H. assert (0 < 2 ^ s) by (apply Z.pow_pos_nonneg; lia).
+  split.
+  - apply (mul_le_cancel_r _ _ (2 ^ s)); lia.
+  - apply (mul_lt_cancel_r _ _ (2 ^ s)); lia.
+Qed.
+Lemma scale_bounds0 V D s : 0 <= s -> 0 <= V * 2 ^ s < D * 2 ^ s -> 0 <= V < D.
+Proof.
+  intros Hs H. assert (0 < 2 ^ s) by (apply Z.pow_pos_nonneg; lia).
+  split.
+  - apply (mul_le_cancel_r _ _ (2 ^ s)); lia.
+  - apply (mul_lt_cancel_r _ _ (2 ^ s)); lia.
 Qed.
